@@ -156,6 +156,16 @@ func (c Cfg) expSize(i int) (w, h float64) {
 		return tabW[t] * k, tabH[t] * k
 	case 9:
 		return tabW9[t] * k, tabH[t] * k
+	case 10:
+		// as 4 (even nodes listed in the map, over a fixed size), except that node 0 is LISTED with size 0x0: a listed
+		// size of zero is still the size the caller asked for
+		if i == 0 {
+			return 0, 0
+		}
+		if i%2 == 0 {
+			return tabW[t] * k, tabH[t] * k
+		}
+		return fixW * k, fixH * k
 	case 6:
 		m := c.WMask
 		for j := 0; j < i; j++ {
@@ -170,7 +180,7 @@ func (c Cfg) listed(i int) bool {
 	switch c.SZ {
 	case 2, 5, 6, 8, 9:
 		return true
-	case 3, 4:
+	case 3, 4, 10:
 		return i%2 == 0
 	}
 	return false
@@ -225,7 +235,7 @@ func (c Cfg) options(in Input) ([]autog.Option, map[string]graph.Size) {
 	k := math.Ldexp(1, c.Scale)
 	var sizes map[string]graph.Size
 	switch c.SZ {
-	case 1, 4:
+	case 1, 4, 10:
 		o = append(o, autog.WithNodeFixedSize(fixW*k, fixH*k))
 	}
 	if c.SZ == 7 {
@@ -516,7 +526,7 @@ func goTest(prop string, in Input, c Cfg, detail string) string {
 		fmt.Fprintf(&sb, "\t\tautog.WithPositioning(autog.PositioningBrandesKoepf), autog.WithBrandesKoepfLayout(%d),\n", c.P4-5)
 	}
 	fmt.Fprintf(&sb, "\t\tautog.WithEdgeRouting(autog.%s),\n", []string{"EdgeRoutingNoop", "EdgeRoutingStraight", "EdgeRoutingPolyline", "EdgeRoutingOrtho", "EdgeRoutingSplines"}[c.P5])
-	if c.SZ == 1 || c.SZ == 4 {
+	if c.SZ == 1 || c.SZ == 4 || c.SZ == 10 {
 		fmt.Fprintf(&sb, "\t\tautog.WithNodeFixedSize(%g, %g),\n", fixW*k, fixH*k)
 	}
 	if c.SZ >= 2 {
